@@ -118,6 +118,57 @@ def leg_a(args):
             if bt is not None and [static_variant(t) for t in bt] != want:
                 pass   # judged by C17 (output-types-change)
         res["sample"] = q.sql[:160]
+        # temporal / binary types (a stream of its own, after everything else): casts between every pair of them, and
+        # INSERT ... SELECT / VALUES that need such a cast - whichever of these the binder accepts must produce, and store, the
+        # variant of the derived / declared type
+        rng2 = random.Random(f"c16t-{seed}-{idx}")
+        if rng2.random() < 0.3:
+            tsetup = ["create table tt(ts timestamp, tz timestamptz, d date, iv interval, bl blob, s varchar)",
+                      "insert into tt values ('2020-01-02 03:04:05', '2020-01-02 03:04:05 +08:00', '2020-01-02', '1 day 2 hours', 'ab', '2021-03-04 05:06:07'), "
+                      "(NULL, NULL, NULL, NULL, NULL, NULL), ('1969-12-31 23:59:59', '1969-12-31 23:59:59 +00:00', '1969-12-31', '-1 day', '\\x00ff', '2000-01-01')"]
+            for st_ in tsetup:
+                rl.sql(st_)
+            tcols = {"ts": "TIMESTAMP", "tz": "TIMESTAMPTZ", "d": "DATE", "iv": "INTERVAL", "bl": "BLOB", "s": "VARCHAR"}
+            variant = {"TIMESTAMP": "Timestamp", "TIMESTAMPTZ": "TimestampTz", "DATE": "Date", "INTERVAL": "Interval", "BLOB": "Blob", "VARCHAR": "String"}
+            for _ in range(6):
+                src, dstt = rng2.choice(sorted(tcols)), rng2.choice(sorted(variant))
+                sql = rng2.choice([f"SELECT CAST({src} AS {dstt}) AS c0 FROM tt", f"SELECT {src}::{dstt} AS c0, {src} AS c1 FROM tt WHERE {src} IS NOT NULL",
+                                   f"SELECT MAX(CAST({src} AS {dstt})) AS c0 FROM tt", f"SELECT CASE WHEN {src} IS NULL THEN NULL ELSE CAST({src} AS {dstt}) END AS c0 FROM tt"])
+                try:
+                    r = rl.cmd({"op": "plancheck", "sql": sql}, timeout=60)
+                except Exception as e:
+                    res["inconclusive"] = f"runner: {type(e).__name__}"
+                    break
+                res["evals"] += 1
+                if not r.get("ok") or not r.get("accepted") or r.get("exec") != "ok" or r.get("types_optimized") is None:
+                    continue
+                want = [static_variant(t) for t in r["types_optimized"]]
+                res["judged"] += 1
+                res["judged_temporal"] = res.get("judged_temporal", 0) + 1
+                for rt in r["runtime_types"]:
+                    if rt != want:
+                        kinds = sorted({f"{b}->{a}" for a, b in zip(rt, want) if a != b})
+                        res["violations"].append(dict(signature="runtime-type-differs:" + ",".join(kinds), what=f"{sql[:220]}: static {want} runtime {rt}", sql=sql, setup=stmts + tsetup, engine=engine))
+                        break
+            for k in range(4):
+                src, dst = rng2.choice(sorted(tcols)), rng2.choice(sorted(tcols))
+                dname = f"td{k}"
+                rl.sql(f"create table {dname}(x {tcols[dst]}, y int)")
+                ins = rng2.choice([f"insert into {dname}(x) select {src} from tt", f"insert into {dname} select {src}, 1 from tt where {src} is not null",
+                                   f"insert into {dname}(x) select max({src}) from tt"])
+                r = rl.sql(ins)
+                res["evals"] += 1
+                if not r["ok"]:
+                    continue
+                back = rl.r.sql(f"select * from {dname}")
+                if not back["ok"]:
+                    res["violations"].append(dict(signature="select-after-insert-fails", what=f"{ins}: {back.get('err')}", sql=ins, setup=stmts + tsetup, engine=engine))
+                    continue
+                res["judged_temporal_inserts"] = res.get("judged_temporal_inserts", 0) + 1
+                for ch in back["stmts"][-1]:
+                    if tuple(ch["types"]) != (variant[tcols[dst]], "Int32"):
+                        res["violations"].append(dict(signature="stored-type-differs", what=f"create table {dname}(x {tcols[dst]}, y int); {ins}: read back {ch['types']}", sql=ins, setup=stmts + tsetup, engine=engine))
+                        break
     except Exception as e:
         res["inconclusive"] = f"harness: {type(e).__name__}: {e}"
     finally:
@@ -388,7 +439,7 @@ def run(tier, seed):
                 "variants and chunk widths; leg B: INSERT VALUES / column subsets / INSERT..SELECT of int, float, string, boolean, "
                 "date and NULL sources into columns of 8 types (nullable or NOT NULL) on both engines, read back and compared; "
                 "distinct non-trivial = distinct executed queries with result chunks (A) plus distinct accepted inserts (B)")
-    tot = dict(judged_a=0, judged_num=0, judged_b=0, accepted=0, rejected=0)
+    tot = dict(judged_a=0, judged_num=0, judged_b=0, accepted=0, rejected=0, temporal=0, temporal_inserts=0)
     items = [("A", (seed, i, nq)) for i in range(na)] + [("B", (seed, i, nins)) for i in range(nb)]
     for res in parallel_map(dispatch, items):
         rep.evaluations += res["evals"]
@@ -396,6 +447,8 @@ def run(tier, seed):
         if res["leg"] == "A":
             tot["judged_a"] += res["judged"]
             tot["judged_num"] += res["judged_num"]
+            tot["temporal"] += res.get("judged_temporal", 0)
+            tot["temporal_inserts"] += res.get("judged_temporal_inserts", 0)
         else:
             tot["judged_b"] += res["judged"]
             tot["accepted"] += res["accepted"]
@@ -410,7 +463,8 @@ def run(tier, seed):
     run_sentinels(rep, sentinel)
     rep.floor("numeric typed statements judged", tot["judged_num"], na * nq // 16)
     rep.coverage.update(numeric_typed_statements_judged=tot["judged_num"], queries_with_types_judged=tot["judged_a"], inserts_read_back=tot["judged_b"],
-                        inserts_accepted=tot["accepted"], inserts_rejected=tot["rejected"])
+                        inserts_accepted=tot["accepted"], inserts_rejected=tot["rejected"],
+                        temporal_casts_with_types_judged=tot["temporal"], temporal_inserts_read_back=tot["temporal_inserts"])
     rep.floor("queries judged", tot["judged_a"], na * nq // 3)
     rep.floor("inserts read back", tot["judged_b"], nb * nins // 6)
     rep.assumptions = ["an INSERT that is rejected is always acceptable; an accepted one must store exactly the inserted value",
